@@ -55,6 +55,25 @@ def baseKey (name : String) : String :=
 def ordered (cs : List (String × PyVal)) : List (String × PyVal) :=
   Tables.constraintOrder.flatMap fun key => cs.filter fun c => baseKey c.1 == key
 
+/-- `validate_constraints` (rule.py:763-827), the part that decides *which* validators are generated:
+`const` stands alone, else `enum` stands alone; otherwise `None` bounds are dropped, a false `unique_items` is
+dropped, `length` removes `min_length`/`max_length` and a zero `min_length` is removed (`valid_length`,
+rule.py:542-574).  The ConfigError branches (illegal declarations) are not part of the model: the theorems
+quantify over the constraint sets the library accepted. -/
+def normalise (cs : List (String × PyVal)) : List (String × PyVal) :=
+  match cs.find? (fun c => baseKey c.1 == "const") with
+  | some c => [c]
+  | none => match cs.find? (fun c => baseKey c.1 == "enum") with
+    | some c => [c]
+    | none =>
+      let cs := cs.filter fun c => !(match c.2 with | .none => true | _ => false)
+      let cs := cs.filter fun c => !(baseKey c.1 == "unique_items" && !Py.truthy c.2)
+      let hasLength := cs.any fun c => baseKey c.1 == "length"
+      cs.filter fun c =>
+        if baseKey c.1 == "min_length" then !hasLength && Py.truthy c.2
+        else if baseKey c.1 == "max_length" then !hasLength
+        else true
+
 /-- `isinstance(obj, T)` for a constrained type with a class origin (rule.py:105-113):
 origin isinstance check, then a full parse.  `parse` is the type's own parse. -/
 def instancecheck (originOk : PyVal → Bool) (parse : PyVal → M PyVal) (v : PyVal) : Bool :=
